@@ -126,7 +126,7 @@ let run () =
                        print_endline ("M " ^ s); print_endline ("S " ^ s)
     | _ ->
       let o = match ws with
-        | ["put"; k; v] -> Some (HPut (bytes_of_hex k, bytes_of_hex v))
+        | ["put"; k; v] | ["putown"; k; v] -> Some (HPut (bytes_of_hex k, bytes_of_hex v))   (* putown: the key pointer is the table's own copy *)
         | ["putnull"; k] -> Some (HPutNullData (bytes_of_hex k))
         | ["putstr"; k; s] -> Some (HPutStr (bytes_of_hex k, bytes_of_hex s))
         | ["putstrnull"; k] -> Some (HPutStrNull (bytes_of_hex k))
